@@ -247,7 +247,8 @@ def c01(tier, rng):
     # several packets in submission order under fragmenting writes
     add(PRE + " ; start 0 0 pub q=1 t=61 pl=%s ; start 1 0 sub f=62:1000 ; start 2 0 ping ; hold ; poll 0 ; poll 1 ; poll 2 ; release"
         % rep(700, 9), ["concat"])
-    return out
+    from gen_client import r7
+    return out + r7("C01")
 
 
 # ---- C02 ------------------------------------------------------------------------------------------
@@ -403,6 +404,24 @@ def c02(tier, rng):
         add(PRE + " ; start 0 0 unsub f=61 ; poll 0 ; deliver %s ; poll 0" % hx(M.unsuback(1, [17], up)), t_ + ["unsuback"])
         add(sp + " ; deliver %s ; pollstream 0" % hx(M.publish(b"t", b"x", 1, 5, ps=up[:2] + [(11, 1)] + up[2:])), t_ + ["publish"])
         add(PRE + " ; deliver " + hx(M.disconnect(139, up, "long")), t_ + ["disconnect"])
+    # DISCONNECT in its one-byte form (reason code, no property length) for every reason
+    for r in DISC_R:
+        add(PRE + " ; deliver " + hx(bytes([0xe0, 1, r])), ["disconnect", "short1-sweep"])
+    # U+FEFF at the start of a string is a character like any other
+    bom = "\ufeff".encode()
+    add(sp + " ; deliver %s ; pollstream 0" % hx(M.publish(bom + b"topic", b"x", 1, 0x2600, ps=[(11, 1)])), ["publish", "bom"])
+    add(sp + " ; deliver %s ; pollstream 0" % hx(M.publish(b"t", b"x", 2, 7, ps=[(3, bom + b"text/plain"), (8, bom + b"reply/to"), (11, 1)])), ["publish", "bom"])
+    add(sp + " ; deliver %s ; pollstream 0" % hx(M.publish(b"t" + bom, b"x", 0, None, ps=[(38, (bom + b"k", bom + b"v")), (11, 1)])), ["publish", "bom"])
+    add(PRE + " ; start 0 0 pub q=1 t=61 ; poll 0 ; deliver %s ; poll 0" % hx(M.puback(1, 135, [(31, bom + b"why")], "long")), ["puback", "bom"])
+    add("connect ; deliver " + hx(M.connack(0, 0, [(18, bom + b"assigned"), (26, bom + b"info"), (28, bom)])), ["connack", "bom"])
+    add(PRE + " ; deliver " + hx(M.disconnect(139, [(31, bom + b"bye"), (28, bom + b"other")], "long")), ["disconnect", "bom"])
+    # a user property followed by properties whose bytes are not UTF-8 (binary data, large integers, long strings)
+    upx = (38, (b"k", b"v"))
+    for tail in ([(9, b"\xde\xad\xbe\xef")], [(2, 86400)], [(11, 200)], [(8, b"r" * 130)], [(9, b"\xff"), (38, (b"k2", b"v2")), (2, 4294967295)]):
+        add(sp + " ; deliver %s ; pollstream 0" % hx(M.publish(b"t", b"\xff\xfe", 1, 9, ps=[upx, (11, 1)] + [t_ for t_ in tail if t_[0] != 11])), ["publish", "up-not-last"])
+    add(PRE + " ; deliver %s" % hx(M.pubrel(7, 0, [upx, (31, b"r" * 130)], "long")), ["pubrel", "up-not-last"])
+    add(PRE + " ; start 0 0 pub q=1 t=61 ; poll 0 ; deliver %s ; poll 0" % hx(M.puback(1, 135, [upx, (31, b"r" * 200), upx], "long")), ["puback", "up-not-last"])
+    add("connect ; deliver " + hx(M.connack(0, 0, [upx, (22, b"\x80\x81"), (21, b"m"), (39, 2147483648), upx])), ["connack", "up-not-last"])
     # the same packets arriving in two reads, the first one ending inside the fixed header / the remaining-length field
     # (long packets: a two-byte length), and glued behind another packet with the cut one byte into them
     extra = []
@@ -710,6 +729,21 @@ def c04(tier, rng):
                 add("running", M.packet(0x40, M.u16(1) + b"\x00" + M.varint(len(pr)) + pr), ["splice"])
                 add("running", M.packet(0xe0, b"\x00" + M.varint(len(pr)) + pr), ["splice"])
                 add("authorising", M.packet(0xf0, b"\x18" + M.varint(len(pr)) + pr), ["splice"])
+    # binary data announcing one or two bytes more than its packet holds, last in its region
+    for over in (1, 2, 3):
+        for have in (0, 1, 4):
+            val = M.u16(have + over) + b"\xab" * have
+            pr = bytes([9]) + val
+            add("running", M.packet(0x30, M.binf(b"t") + M.varint(len(pr)) + pr), ["splice", "overrun"])
+            add("running", M.packet(0x30, M.binf(b"t") + M.varint(len(pr) + 2) + bytes([1, 0]) + pr), ["splice", "overrun"])
+            pr2 = bytes([22]) + val
+            add("connecting", M.packet(0x20, b"\x00\x00" + M.varint(len(pr2) + 3) + bytes([21, 0, 0]) + pr2), ["splice", "overrun"])
+            add("authorising", M.packet(0xf0, b"\x18" + M.varint(len(pr2) + 4) + bytes([21, 0, 1, 0x6d]) + pr2), ["splice", "overrun"])
+    # SUBACK / UNSUBACK reason codes the standard does not define, in any position
+    for codes in ([3], [0x7f], [0xff], [0, 0x9f], [0x9f, 1], [1, 2, 4]):
+        add("running", M.suback(2, codes), ["undefined-code"])
+        add("running", M.suback(77, codes), ["undefined-code"])
+        add("running", M.unsuback(2, codes), ["undefined-code"])
     # invalid UTF-8 in strings
     for bad in (b"\xc0\x80", b"\xed\xa0\x80", b"\xf4\x90\x80\x80", b"\xe2\x82", b"\x80", b"\xf8\x88\x80\x80\x80"):
         add("running", M.publish(bad, b"x"), ["utf8"])
